@@ -6,10 +6,12 @@ package c10
 //	           instance while this goroutine holds the instance lock (or the
 //	           lock of a sub-object): the call parks on that lock iff the
 //	           table says the method takes it.
-//	watchdog   each public method of each type is called on a populated
-//	           instance: returned | panicked | timeout; afterwards Size() (or
-//	           another lock-taking call) must still come back: a method that
-//	           returned but kept the lock shows here.
+//	watchdog   each public method of each type is called in every state its
+//	           helper paths depend on (populated / empty / growing through
+//	           the re-hash thresholds / bound in force and reached, with
+//	           existing and with fresh keys): returned | panicked | timeout;
+//	           afterwards Size() (or another lock-taking call) must still
+//	           come back: a method that returned but kept the lock shows here.
 //
 // Both go through the methods the COMPILED type has (reflection); the list is
 // logged ("Methods") and must equal the table's.
@@ -150,6 +152,55 @@ func runFootprint(c *core.Ctx, tab *Table) error {
 	return nil
 }
 
+// The states in which every public method is exercised by the watchdog.  A
+// method's helper paths depend on the state it meets: the eviction branch runs
+// only on an instance whose bound is in force and reached and only for a NEW
+// key, the re-hash only when an insertion crosses the threshold, the unlinking
+// only when the key is there.
+//
+//	populated  5 elements, one call with an existing key
+//	empty      no element, one call
+//	growing    5 elements, then 170 calls with fresh keys (an inserting method
+//	           crosses the default threshold twice; a removing one misses)
+//	full       bound 3 in force and reached (SetMax / queue capacity), then 12
+//	           calls alternating fresh and existing keys
+var wdVariants = []string{"populated", "empty", "growing", "full"}
+
+func wdKeys(variant string) []int {
+	switch variant {
+	case "growing":
+		ks := make([]int, 170)
+		for i := range ks {
+			ks[i] = populated + 1 + i
+		}
+		return ks
+	case "full":
+		return []int{9, 1, 10, 2, 11, 3, 12, 12, 1, 13, 14, 2}
+	}
+	return []int{2}
+}
+
+// guardedAll runs the calls one after the other on one goroutine under the
+// watchdog; a panicking call does not stop the sequence.
+func guardedAll(calls []func()) string {
+	done := make(chan string, 1)
+	go func() {
+		out := "returned"
+		for _, f := range calls {
+			if core.Guard(f) != "" {
+				out = "panicked"
+			}
+		}
+		done <- out
+	}()
+	select {
+	case out := <-done:
+		return out
+	case <-time.After(watchdog):
+		return "timeout"
+	}
+}
+
 func runWatchdog(c *core.Ctx, tab *Table) error {
 	const gen = "watchdog"
 	if !c.WantGen(gen) {
@@ -168,29 +219,55 @@ func runWatchdog(c *core.Ctx, tab *Table) error {
 		t.Reset(gen, cas, core.Ev{"t": tn, "nondet": true})
 		ms := emitMethods(t, tn, first)
 		pm := probeMethod(ti)
+		timeouts := 0 // a type that hangs again and again has said what it has to say
 		for _, m := range ms {
-			for variant := 0; variant < 2; variant++ { // populated, then empty
+			for vi, variant := range wdVariants {
+				if vi > 0 && timeouts >= 6 {
+					continue
+				}
 				var obj interface{}
-				if variant == 0 {
+				switch variant {
+				case "populated", "growing":
 					if obj, err = newPopulated(tn); err != nil {
 						return err
 					}
-				} else {
+				case "empty":
 					obj = ctors[tn]()
 					if blocksWhenEmpty(tn, m) {
 						continue
 					}
-				}
-				call, err := caller(obj, tn, m, 2)
-				if err != nil {
-					if variant == 1 { // arguments that need content (a node of the list, the wire form)
+				case "full":
+					var ok bool
+					if obj, ok, err = newFull(tn); err != nil {
+						return err
+					} else if !ok {
 						continue
 					}
-					return err
 				}
-				out := guarded(call)
-				ev := core.Ev{"ev": "Outcome", "t": tn, "m": m, "out": out, "on": []string{"populated", "empty"}[variant]}
-				if out != "timeout" && pm != "" {
+				keys := wdKeys(variant)
+				if waitsWhenEmpty(tn, m) { // one call, while there is something to take
+					keys = keys[:1]
+				}
+				var calls []func()
+				for _, k := range keys {
+					call, err := caller(obj, tn, m, k)
+					if err != nil {
+						calls = nil
+						if vi == 0 {
+							return err
+						}
+						break // arguments that need content (a node of the list, the wire form)
+					}
+					calls = append(calls, call)
+				}
+				if calls == nil {
+					continue
+				}
+				out := guardedAll(calls)
+				ev := core.Ev{"ev": "Outcome", "t": tn, "m": m, "out": out, "on": variant, "calls": len(calls)}
+				if out == "timeout" {
+					timeouts++
+				} else if pm != "" {
 					p, err := caller(obj, tn, pm, 1)
 					if err != nil {
 						return err
@@ -199,8 +276,8 @@ func runWatchdog(c *core.Ctx, tab *Table) error {
 					ev["probe"] = pm
 				}
 				t.Emit(ev)
-				c.Count(fmt.Sprintf("wd|%s|%s|%d", tn, m, variant), true)
-				if len(ms) > 0 && m == ms[0] && variant == 0 && cas < 2 {
+				c.Count(fmt.Sprintf("wd|%s|%s|%s", tn, m, variant), true)
+				if len(ms) > 0 && m == ms[0] && vi == 0 && cas < 2 {
 					c.Sample(ev)
 				}
 			}
@@ -213,4 +290,10 @@ func runWatchdog(c *core.Ctx, tab *Table) error {
 // blocksWhenEmpty: the blocking dequeue waits for an element by design.
 func blocksWhenEmpty(tn, m string) bool {
 	return (tn == "RequestQueue" || tn == "RequestDoubleQueue") && m == "Get"
+}
+
+// waitsWhenEmpty: the dequeues that wait (for ever, or for the time given as
+// argument) when there is nothing to take.
+func waitsWhenEmpty(tn, m string) bool {
+	return (tn == "RequestQueue" || tn == "RequestDoubleQueue") && (m == "Get" || m == "GetTimeout")
 }
